@@ -264,7 +264,7 @@ func Generate(family string, seed int64, idx int) Scenario {
 		p.MaxAppend = pick(r, 1, 4, 64)
 		sc.Clients = 0
 		sc.Script = "snapterm"
-	case "dupae", "monofail", "snaptrunc", "snapleader", "snapfallback", "restorefail", "snapvote", "restoreedge":
+	case "dupae", "monofail", "snaptrunc", "snapleader", "snapfallback", "restorefail", "snapvote", "restoreedge", "deposeae":
 		p := &sc.P
 		p.Voters, p.NonVoters, p.Spares = 3, 0, 0
 		p.Protocol = 0
@@ -294,6 +294,13 @@ func Generate(family string, seed int64, idx int) Scenario {
 			if r.Intn(3) == 0 {
 				p.Flavor = Flavor{Monotonic: true}
 			}
+		case "deposeae":
+			p.Voters, p.Spares = pick(r, 3, 3, 5), 1
+			p.Trailing = 10240
+			p.LeaseMs = p.HeartbeatMs
+			p.Pipeline = r.Intn(2) == 0
+			p.FastPath = r.Intn(2) == 0
+			p.BatchApply = r.Intn(2) == 0
 		case "restoreedge":
 			p.Trailing = 10240
 			p.MaxAppend = 64
